@@ -54,7 +54,7 @@ class ObjT(T):
 
 
 class SeqT(T):
-    def __init__(self, elem=Int): self.elem = elem
+    def __init__(self, elem=Int, inv=None): self.elem, self.inv = elem, inv
 
 
 class MapT(T):
@@ -91,10 +91,17 @@ def mk(t, name, inv):
     if isinstance(t, ObjT):
         fields = dict(SCHEMAS.get(t.cls, {}))
         fields.update(t.fields)
-        return ObjV(t.cls, {k: mk(ft, f"{name}.{k}", inv) for k, ft in fields.items()})
+        o = ObjV(t.cls, {k: mk(ft, f"{name}.{k}", inv) for k, ft in fields.items()})
+        if "__id__" not in o.fields:
+            o.fields["__id__"] = fresh(name + ".__id__", I)
+        return o
     if isinstance(t, SeqT):
         s = SeqV(fresh(name + ".arr", AII), fresh(name + ".n", I), t.elem)
         inv.append(s.n >= 0)
+        if t.inv is not None:
+            from . import heap
+            k = z3.Int(f"k!{name}")
+            inv.append(z3.ForAll([k], z3.Implies(z3.And(0 <= k, k < s.n), t.inv(heap.seq_elem(s, s.arr[k]))), patterns=[s.arr[k]]))
         return s
     if isinstance(t, MapT):
         return MapV(fresh(name + ".map", AII))
@@ -131,6 +138,7 @@ class Contract:
         self.unroll = {}
         self.consts = {}
         self.ghost_results = []
+        self.local_types = {}
         self.runtime = None
 
     # -- declaration helpers
